@@ -4,7 +4,7 @@
 (* flag set.  Operand classes sit on the rule boundaries: negative, zero, the   *)
 (* 500,000,000 threshold, equal / one above the context value, the type bit     *)
 (* (1 << 22), the disable bit (1 << 31, needs a 5-byte operand), non-minimal    *)
-(* encodings, 5- and 6-byte operands.  Contexts: tx version 1 / 2, lock time on *)
+(* encodings, 5- and 6-byte operands.  Contexts: tx version 0..3 and 2^31-1, lock time on *)
 (* both sides of the threshold, input sequence final / plain / type bit /       *)
 (* disable bit with satisfying low bits.                                        *)
 EXTENDS ScriptVM, Json
@@ -23,7 +23,7 @@ Operands == { <<>>, <<1>>, <<10>>, <<11>>, <<100>>, <<101>>, <<129>>, <<10, 0>>,
               <<0, 0, 0, 0, 0, 1>>,             \* 6 bytes: too long
               <<10, 0, 1>>,                     \* 65546: same low 16 bits as 10
               <<255, 255, 0>>, <<255, 255, 64>> }
-Versions == {1, 2}
+Versions == {0, 1, 2, 3, 2147483647}       \* BIP112 compares the version as an unsigned number with 2
 LockTimes == { <<0, 0, 0, 0>>, <<100, 0, 0, 0>>, <<255, 100, 205, 29>>, <<0, 101, 205, 29>>, <<1, 101, 205, 29>>,
                <<255, 255, 255, 255>> }
 Sequences == { <<255, 255, 255, 255>>, <<254, 255, 255, 255>>, <<10, 0, 0, 0>>, <<10, 0, 64, 0>>, <<10, 0, 0, 128>>,
